@@ -17,7 +17,7 @@ Open Scope N_scope.
    the default type, whose data is the message with raw CRs removed ... *)
 Theorem C32_sse :
   forall msgs, Forall (fun m => lf_free m = true) msgs ->
-    sse_parse (sse_frame true msgs) = map (fun m => mkEv [] (strip_cr m)) msgs.
+    sse_parse (sse_frame true msgs) = map (fun m => mkEv [] (strip_cr m) [] None) msgs.
 Proof. exact sse_roundtrip. Qed.
 Print Assumptions C32_sse.
 
@@ -35,9 +35,38 @@ Print Assumptions C32_sse_content.
 (* the same for any later slice of the body (the handler writes batch by batch) *)
 Theorem C32_sse_chunk :
   forall msgs, Forall (fun m => lf_free m = true) msgs ->
-    sse_parse (flat_map (sse_msg true) msgs) = map (fun m => mkEv [] (strip_cr m)) msgs.
+    sse_parse (flat_map (sse_msg true) msgs) = map (fun m => mkEv [] (strip_cr m) [] None) msgs.
 Proof. exact sse_chunk_roundtrip. Qed.
 Print Assumptions C32_sse_chunk.
+
+(* The handlers get the messages in batches and write batch after batch (several
+   messages per write / flush): the same holds for every batching. *)
+Theorem C32_sse_batches :
+  forall batches, Forall (Forall (fun m => lf_free m = true)) batches ->
+    sse_parse (sse_body true batches) = map (fun m => mkEv [] (strip_cr m) [] None) (concat batches).
+Proof. exact sse_batches_roundtrip. Qed.
+Print Assumptions C32_sse_batches.
+
+Theorem C32_ndjson_batches :
+  forall batches, Forall (Forall (fun m => lf_free m = true)) batches ->
+    ndjson_parse (json_body batches) = concat batches.
+Proof. exact json_batches_roundtrip. Qed.
+Print Assumptions C32_ndjson_batches.
+
+Theorem C32_pb_batches :
+  forall batches, Forall (Forall pb_small) batches ->
+    pb_parse (S (length (pb_body batches))) (pb_body batches) = Some (concat batches).
+Proof. exact pb_batches_roundtrip. Qed.
+Print Assumptions C32_pb_batches.
+
+(* The parser implements the id and retry fields (and the leading BOM) of the standard;
+   the handler never produces them: every event has an empty last-event-id, no
+   reconnection time and the default type. *)
+Theorem C32_sse_no_id_retry :
+  forall msgs, Forall (fun m => lf_free m = true) msgs ->
+    Forall (fun e => ev_id e = [] /\ ev_retry e = None /\ ev_type e = []) (sse_parse (sse_frame true msgs)).
+Proof. exact sse_no_id_retry. Qed.
+Print Assumptions C32_sse_no_id_retry.
 
 (* Before the fix the statement is false (finding F8): {"a":<CR>1} is a JSON text the
    protocol accepts, and the event a conforming parser receives is cut at the CR. *)
@@ -91,16 +120,16 @@ Print Assumptions C32_model_meets_oracle.
 (* ---- non-vacuity ---- *)
 Example C32_ex_sse :     (* messages  {"a":<CR>1}  and  {"s":"data: x"}  *)
   sse_parse (sse_frame true [[123;34;97;34;58;13;49;125]; [123;34;115;34;58;34;100;97;116;97;58;32;120;34;125]])
-  = [mkEv [] [123;34;97;34;58;49;125]; mkEv [] [123;34;115;34;58;34;100;97;116;97;58;32;120;34;125]].
+  = [mkEv [] [123;34;97;34;58;49;125] [] None; mkEv [] [123;34;115;34;58;34;100;97;116;97;58;32;120;34;125] [] None].
 Proof. vm_compute. reflexivity. Qed.
 
 Example C32_ex_sse_unfixed_cut :   (* before the fix the first event is  {"a":  *)
-  sse_parse (sse_frame false [[123;34;97;34;58;13;49;125]]) = [mkEv [] [123;34;97;34;58]].
+  sse_parse (sse_frame false [[123;34;97;34;58;13;49;125]]) = [mkEv [] [123;34;97;34;58] [] None].
 Proof. vm_compute. reflexivity. Qed.
 
 Example C32_ex_sse_standard :      (* the parser follows the standard: comments, CRLF, multi-line data, event type *)
   sse_parse [58;120;13;10; 101;118;101;110;116;58;32;116;10; 100;97;116;97;58;97;13; 100;97;116;97;58;32;98;10; 10; 100;97;116;97;10;10]
-  = [mkEv [116] [97;10;98]; mkEv [] []].
+  = [mkEv [116] [97;10;98] [] None; mkEv [] [] [] None].
 Proof. vm_compute. reflexivity. Qed.
 
 Example C32_ex_pb :
@@ -112,3 +141,9 @@ Example C32_ex_json_clean :
   json_clean [34;97;13;34] = false /\                        (* "a<CR>" : raw CR inside a string is not JSON *)
   normalise [123;32;34;97;32;34;9;58;13;10;49;125] = [123;34;97;32;34;58;49;125].
 Proof. vm_compute. auto. Qed.
+
+Example C32_ex_sse_id_retry_bom :   (* BOM, "id: 7", "retry: 250", "retry: x" (ignored), "id" with NUL (ignored) *)
+  sse_parse [239;187;191; 105;100;58;32;55;10; 114;101;116;114;121;58;32;50;53;48;10; 100;97;116;97;58;97;10;10;
+             114;101;116;114;121;58;120;10; 105;100;58;0;10; 100;97;116;97;58;98;10;10]
+  = [mkEv [] [97] [55] (Some 250); mkEv [] [98] [55] (Some 250)].
+Proof. vm_compute. reflexivity. Qed.
